@@ -265,6 +265,15 @@ def job_fields(job):
                 frames.append([wire.settings([(ident, value)])])
                 frames.append([wire.settings([(4, 70000), (ident, value)])])
                 frames.append([wire.settings([(ident, value), (ident, value ^ 1)])])
+        # two SETTINGS frames in a row: a setting given a (valid) value by the first, then a frame that omits it, repeats it,
+        # or changes another one - the handling of a frame may consult what earlier frames left behind
+        VALID = {1: 0, 2: 0, 3: 5, 4: 100, 5: 20000, 6: 100000, 8: 1, 0x99: 7}
+        for k, v in sorted(VALID.items()):
+            first = wire.settings([(k, v)])
+            frames.append([first, wire.settings([])])
+            frames.append([first, wire.settings([(k, v)])])
+            frames.append([first, wire.settings([(4, 70000)])])
+            frames.append([first, wire.settings([], ack=True), wire.settings([(3, 9)])])
         for code in list(range(0, 21)) + [0xff, 2 ** 31, 2 ** 32 - 1]:
             frames.append([wire.rst_stream(1, code)])
             frames.append([wire.goaway(1, code, b"x")])
